@@ -831,6 +831,7 @@ public:
 		else if constexpr (1 == nrBlocks) {
 			if (sign()) {
 				++_block[MSU];
+				_block[MSU] &= MSU_MASK; // stepping past the all-ones encoding wraps inside the nbits of the encoding
 			}
 			else {
 				// positive range
@@ -873,6 +874,7 @@ public:
 				}
 				if (carry) {
 					++_block[MSU];
+					_block[MSU] &= MSU_MASK; // stepping past the all-ones encoding wraps inside the nbits of the encoding
 				}
 			}
 			else {
